@@ -187,7 +187,7 @@ func checkRandNames(w *World, r *Result) {
 							content = c
 						} else if id := identOf(kv.Value); id != nil {
 							for _, d := range defsIn(info, fi.Decl, objOf(info, id)) {
-								if c, ok := d.(*ast.CallExpr); ok && isSprintf(info, &c) {
+								if c := sprintfView(info, d); c != nil {
 									content = c
 								}
 							}
@@ -433,8 +433,8 @@ func checkConverterClosure(w *World, r *Result) {
 		})
 		seen := map[string]bool{}
 		ast.Inspect(fi.Decl.Body, func(x ast.Node) bool {
-			call, ok := x.(*ast.CallExpr)
-			if !ok || !isSprintf(info, &call) {
+			call := sprintfView(info, x)
+			if call == nil {
 				return true
 			}
 			format, vas := verbArgs(info, call)
@@ -605,8 +605,8 @@ func checkUniqueSelectors(w *World, r *Result) {
 			}
 			subst := map[types.Object]string{finfo.Defs[v]: "$key"}
 			ast.Inspect(rs.Body, func(y ast.Node) bool {
-				sp, ok := y.(*ast.CallExpr)
-				if !ok || !isSprintf(finfo, &sp) || len(sp.Args) == 0 {
+				sp := sprintfView(finfo, y)
+				if sp == nil || len(sp.Args) == 0 {
 					return true
 				}
 				tv := finfo.Types[sp.Args[0]]
